@@ -2,6 +2,7 @@ package main
 
 import (
 	"fmt"
+	"go/types"
 	"strings"
 
 	"golang.org/x/tools/go/ssa"
@@ -37,6 +38,19 @@ func loopDepth(b *ssa.BasicBlock) int {
 }
 
 // C13-R2 / C04-R6b CUTOFF.
+// sweepRoles: captured variables of the slice body by type (not by name).
+type sweepRolesT struct{ cutoff, dbiName, last, limit string }
+
+func sweepRoles(c *Check) sweepRolesT {
+	cl := c.P.Func(fnSweepTxn)
+	return sweepRolesT{
+		cutoff:  freeOfType(cl, func(t types.Type) bool { return namedIs(t, "header.Timestamp") }),
+		dbiName: freeOfType(cl, func(t types.Type) bool { b, ok := t.(*types.Basic); return ok && b.Kind() == types.String }),
+		last:    freeOfType(cl, func(t types.Type) bool { return namedIs(t, "limitscanner.LimitCursor") }),
+		limit:   freeOfType(cl, func(t types.Type) bool { b, ok := t.(*types.Basic); return ok && b.Kind() == types.Bool }),
+	}
+}
+
 func ruleSweeperCutoff(c *Check, rule string) {
 	fn := c.P.Func(fnSweep)
 	cl := c.P.Func(fnSweepTxn)
@@ -46,12 +60,17 @@ func ruleSweeperCutoff(c *Check, rule string) {
 	}
 	c.UseFunc(fnSweep, fnSweepTxn)
 	pos := c.P.Pos(fn.Pos())
+	roles := sweepRoles(c)
+	if roles.cutoff == "" {
+		c.Undecided(rule, fnSweepTxn+"/cutoff-variable", "the slice body does not capture exactly one header.Timestamp (the pass-wide cutoff)", pos)
+		return
+	}
 	// stores to the cutoff variable in the parent
 	var stores []*ssa.Store
 	for _, b := range fn.Blocks {
 		for _, in := range b.Instrs {
 			if st, ok := in.(*ssa.Store); ok {
-				if a, ok := st.Addr.(*ssa.Alloc); ok && a.Comment == "cutoffTS" {
+				if a, ok := st.Addr.(*ssa.Alloc); ok && a.Comment == roles.cutoff {
 					stores = append(stores, st)
 				}
 			}
@@ -63,7 +82,7 @@ func ruleSweeperCutoff(c *Check, rule string) {
 	}
 	_, paths := c.walkFn(rule, fnSweep, WalkConfig{Memo: true,
 		KeepEvent: func(e *Event) bool {
-			return e.Kind == "store" && strings.Contains(e.Addr, "cutoffTS") || e.Kind == "ret"
+			return e.Kind == "store" && strings.Contains(e.Addr, roles.cutoff) || e.Kind == "ret"
 		},
 		KeepAtom: func(a Atom) bool { return false }})
 	want := "lmdbenv/header.TimestampFromTime((time.Time).Add(time.Now@"
@@ -71,7 +90,7 @@ func ruleSweeperCutoff(c *Check, rule string) {
 	val := ""
 	for i := range paths {
 		for _, e := range paths[i].Events {
-			if e.Kind == "store" && e.Addr == "&alloc:cutoffTS" {
+			if e.Kind == "store" && e.Addr == "&alloc:"+roles.cutoff {
 				val = e.Val
 				ok = strings.HasPrefix(e.Val, want) && strings.HasSuffix(e.Val, ", -config.(Sweeper).RetentionDuration("+param(fn, 0)+".conf)))")
 			}
@@ -79,8 +98,8 @@ func ruleSweeperCutoff(c *Check, rule string) {
 	}
 	c.Expect(ok, rule, fnSweep+"/cutoff-value", "the sweep cutoff is TimestampFromTime(time.Now().Add(−RetentionDuration())), assigned once before the first slice", "the sweep cutoff is "+val+"; expected now − RetentionDuration() (the full retention, with the negation)", pos)
 	// the transaction body compares against that captured variable
-	b := closureBinding(fn, cl, "cutoffTS")
-	c.Expect(b == "alloc:cutoffTS", rule, fnSweepTxn+"/cutoff-binding", "every slice compares against the pass-wide cutoff variable", "the slice body's cutoff is bound to "+b+", not to the pass-wide cutoff", c.P.Pos(cl.Pos()))
+	b := closureBinding(fn, cl, roles.cutoff)
+	c.Expect(b == "alloc:"+roles.cutoff, rule, fnSweepTxn+"/cutoff-binding", "every slice compares against the pass-wide cutoff variable", "the slice body's cutoff is bound to "+b+", not to the pass-wide cutoff", c.P.Pos(cl.Pos()))
 	// RetentionDuration: days * 24h without truncation
 	ruleRetentionDuration(c, rule)
 }
@@ -127,6 +146,11 @@ func ruleSweeper(c *Check, rTable, rPrivate, rEffect, rCursor string) {
 	pos := c.P.Pos(fn.Pos())
 	txn := param(fn, 0)
 	nDel, nKeep, bad := 0, 0, 0
+	roles := sweepRoles(c)
+	if roles.cutoff == "" || roles.dbiName == "" || roles.last == "" || roles.limit == "" {
+		c.Undecided(rTable, fnSweepTxn+"/captured", "cannot identify the captured cutoff, DBI name, resume cursor and limit flag of the slice body by their types", pos)
+		return
+	}
 	for i := range paths {
 		p := &paths[i]
 		sc := callsOf(p, "lmdbenv/limitscanner.(*LimitScanner).Scan")
@@ -160,7 +184,7 @@ func ruleSweeper(c *Check, rTable, rPrivate, rEffect, rCursor string) {
 			continue
 		}
 		del, df := boolCond(p, "lmdbenv/header.(Flags).IsDeleted("+parse+"#0.Flags)", -1)
-		tsRel := p.State.RelOf("int", parse+"#0.Timestamp", "*free:cutoffTS")
+		tsRel := p.State.RelOf("int", parse+"#0.Timestamp", "*free:"+roles.cutoff)
 		expired := df && del && tsRel == LT
 		notExpired := (df && !del) || (df && del && tsRel&LT == 0)
 		switch {
@@ -169,7 +193,7 @@ func ruleSweeper(c *Check, rTable, rPrivate, rEffect, rCursor string) {
 			d := muts[0]
 			dbiOK := false
 			for _, od := range callsOf(p, "(*lmdb.Txn).OpenDBI") {
-				if od.Res+"#0" == d.Args[1] && od.Args[0] == txn && od.Args[1] == "*free:dbiName" {
+				if od.Res+"#0" == d.Args[1] && od.Args[0] == txn && od.Args[1] == "*free:"+roles.dbiName {
 					dbiOK = true
 				}
 			}
@@ -256,7 +280,7 @@ func ruleSweeper(c *Check, rTable, rPrivate, rEffect, rCursor string) {
 	okCur, nCur := true, 0
 	for _, bk := range sfn.Blocks {
 		for _, in := range bk.Instrs {
-			if al, ok := in.(*ssa.Alloc); ok && (al.Comment == "last" || al.Comment == "limitReached") {
+			if al, ok := in.(*ssa.Alloc); ok && (al.Comment == roles.last || al.Comment == roles.limit) {
 				nCur++
 				if loopDepth(bk) != 1 {
 					okCur = false
@@ -280,10 +304,10 @@ func ruleSweeper(c *Check, rTable, rPrivate, rEffect, rCursor string) {
 				cur := callsOf(p, "lmdbenv/limitscanner.(*LimitScanner).Cursor")
 				st1, st2 := false, false
 				for _, e := range p.Events {
-					if e.Kind == "store" && e.Addr == "free:last" && len(cur) == 1 && e.Val == cur[0].Res+"#0" {
+					if e.Kind == "store" && e.Addr == "free:"+roles.last && len(cur) == 1 && e.Val == cur[0].Res+"#0" {
 						st1 = true
 					}
-					if e.Kind == "store" && e.Addr == "free:limitReached" && len(cur) == 1 && e.Val == cur[0].Res+"#1" {
+					if e.Kind == "store" && e.Addr == "free:"+roles.limit && len(cur) == 1 && e.Val == cur[0].Res+"#1" {
 						st2 = true
 					}
 				}
